@@ -175,6 +175,7 @@ class Generated:
         self.fns = {}         # key -> info dict
         self.items = {}       # key -> info
         self.tpl_of_line = {}  # gen line -> template file:line (for non-repo lines)
+        self.probes = []       # (insert after gen line, probe fn name, fn key, lines): precondition vacuity probes
 
     def add(self, line, fnkey=None, origin=None):
         self.lines.append(line)
@@ -187,6 +188,41 @@ class Generated:
 
     def text(self):
         return '\n'.join(self.lines) + '\n'
+
+    def lemma_probes(self):
+        """Hypothesis probes for the hand-written lemmas: `proof fn L(params) requires H ensures ..` gets a sibling
+        `proof fn zz_probe_L(params) requires H ensures false {}` which must be rejected (H satisfiable as far as Z3 can tell)."""
+        text = self.text()
+        mask = rs.code_mask(text)
+        out = []
+        for mm in rs.find_code(text, mask, r'\b(pub\s+)?(broadcast\s+)?proof fn (\w+)'):
+            if mm.group(2):
+                continue
+            ob = rs.body_open(text, mask, mm.end())
+            if ob < 0:
+                continue
+            head = text[mm.start():ob]
+            hm = rs.code_mask(head)
+            mr = [x for x in rs.find_code(head, hm, r'\brequires\b')]
+            if not mr:
+                continue
+            me = [x for x in rs.find_code(head, hm, r'\b(ensures|decreases)\b') if x.start() > mr[0].start()]
+            req = head[mr[0].start():me[0].start() if me else len(head)].rstrip().rstrip(',')
+            sigpart = head[:mr[0].start()].rstrip()
+            name = mm.group(3)
+            close = rs.match_close(text, mask, ob)
+            line_after = text.count('\n', 0, close) + 1
+            psig = re.sub(r'\bproof fn\s+\w+', 'proof fn zz_probe_' + name, sigpart, count=1)
+            psig = re.sub(r'^pub\s+', '', psig)
+            out.append((line_after, 'zz_probe_' + name, None, [psig, req, 'ensures false', '{}']))
+        return out
+
+    def text_with_probes(self):
+        out = list(self.lines)
+        allp = self.probes + self.lemma_probes()
+        for after, _name, _key, lines in sorted(allp, key=lambda x: -x[0]):
+            out[after:after] = lines
+        return '\n'.join(out) + '\n'
 
     def fn_of_line(self, ln):
         for a, b, k in self.fn_ranges:
@@ -309,6 +345,24 @@ def render_fn(spec, g, indent=''):
     g.fn_ranges.append((first, last, key))
     info['gen_lines'] = [first, last]
     g.fns[key] = info
+    # vacuity probe for a precondition: the same signature and `requires`, body `unreached()` (which requires false).
+    # If Verus ACCEPTS the probe, the precondition is contradictory and everything proved under it is void.
+    contract = '\n'.join(spec.sig)
+    cm = rs.code_mask(contract)
+    mreq = None
+    for mm in rs.find_code(contract, cm, r'\brequires\b'):
+        mreq = mm
+        break
+    if mreq is not None:
+        mens = None
+        for mm in rs.find_code(contract, cm, r'\bensures\b'):
+            if mm.start() > mreq.start():
+                mens = mm
+                break
+        req = contract[mreq.start():mens.start() if mens else len(contract)].rstrip().rstrip(',')
+        pname = 'zz_probe_' + re.search(r'\bfn\s+(\w+)', sig).group(1)
+        psig = re.sub(r'\bfn\s+\w+', 'fn ' + pname, sig, count=1)
+        g.probes.append((last, pname, key, [indent + l for l in psig.split('\n')] + [req, '{ vstd::pervasive::unreached() }']))
 
 
 def render_item(file, kind, name, g):
